@@ -139,6 +139,55 @@ example :
               (((⟨[], 4⟩ : BQ).lrun [.fill 4 1, .drain 3, .fill 9 5, .xfill 3 20, .one .cap, .drain 9]).2).getLast!] := by
   decide +kernel
 
+/-- `c10_ring_len_no_overflow`: the `Ring` model computes on unbounded `Int`; Go computes on
+`int` (64-bit).  With a zero-size element type (`Ring[struct{}]`, `Ring[[0]int]`) capacities
+up to `math.MaxInt = 2^63 − 1` are reachable without memory, so this matters.  For every
+state satisfying the invariant with `cap ≤ 2^63 − 1`, every INTERMEDIATE value of the coded
+expressions — `tail − head + 1` (unwrapped `Len`), `cap − head`, `cap − head + tail`,
+`cap − head + tail + 1` (wrapped `Len`, left to right), `tail + 1` (`IsFull`, `Push`),
+`head + 1` (`Pop`) — lies in the `int64` range: Go's arithmetic coincides with the model's.
+(`r.cap * 2` in `PushWithExpand` is evaluated only on a FULL ring; for `cap > 2^62` that
+needs more than 2^62 pushes and is outside every executable history.  The one-expression
+`Len` of seeded C10-G, `(tail − head + cap) % cap + 1`, does overflow: `Findings/C10.lean`.) -/
+theorem c10_ring_len_no_overflow (r : Ring) (hi : r.Inv) (hc : r.cap ≤ 2 ^ 63 - 1) :
+    let ok := fun (x : Int) => -(2 ^ 63) ≤ x ∧ x < 2 ^ 63
+    ok (r.tail + 1) ∧ ok (r.head + 1) ∧
+    (r.head ≠ -1 → r.head ≤ r.tail → ok (r.tail - r.head) ∧ ok (r.tail - r.head + 1)) ∧
+    (r.head ≠ -1 → ¬ r.head ≤ r.tail →
+      ok (r.cap - r.head) ∧ ok (r.cap - r.head + r.tail) ∧ ok (r.cap - r.head + r.tail + 1)) ∧
+    ok r.len ∧ 0 ≤ r.len ∧ r.len ≤ r.cap := by
+  intro ok
+  have hlen := content_length r hi
+  have hle := content_le_cap r hi
+  obtain ⟨hcp, _, hr⟩ := hi
+  have hl0 : 0 ≤ r.len := by rw [← hlen]; omega
+  have hl1 : r.len ≤ r.cap := by rw [← hlen]; exact hle
+  refine ⟨?_, ?_, ?_, ?_, ?_, hl0, hl1⟩
+  · show -(2 ^ 63) ≤ r.tail + 1 ∧ r.tail + 1 < 2 ^ 63
+    rcases hr with ⟨_, h⟩ | ⟨_, _, h1, h2⟩ <;> omega
+  · show -(2 ^ 63) ≤ r.head + 1 ∧ r.head + 1 < 2 ^ 63
+    rcases hr with ⟨h, _⟩ | ⟨h1, h2, _, _⟩ <;> omega
+  · intro hne hle'
+    show (-(2 ^ 63) ≤ r.tail - r.head ∧ r.tail - r.head < 2 ^ 63) ∧
+      (-(2 ^ 63) ≤ r.tail - r.head + 1 ∧ r.tail - r.head + 1 < 2 ^ 63)
+    rcases hr with ⟨h, _⟩ | ⟨h1, h2, h3, h4⟩
+    · exact absurd h hne
+    · omega
+  · intro hne hgt
+    show (-(2 ^ 63) ≤ r.cap - r.head ∧ r.cap - r.head < 2 ^ 63) ∧
+      (-(2 ^ 63) ≤ r.cap - r.head + r.tail ∧ r.cap - r.head + r.tail < 2 ^ 63) ∧
+      (-(2 ^ 63) ≤ r.cap - r.head + r.tail + 1 ∧ r.cap - r.head + r.tail + 1 < 2 ^ 63)
+    rcases hr with ⟨h, _⟩ | ⟨h1, h2, h3, h4⟩
+    · exact absurd h hne
+    · omega
+  · show -(2 ^ 63) ≤ r.len ∧ r.len < 2 ^ 63
+    omega
+
+/-- Non-vacuity: `New[struct{}](math.MaxInt)` after two pushes: `Len() = 2`, not full
+(spec-level run, which is what the oracle answers for `ringZ` cases). -/
+example : ((⟨[], 2 ^ 63 - 1⟩ : BQ).lrun [.fill 2 0, .one .len, .one .isFull, .one (.recap 1), .one (.recap 2), .one .cap]).2
+    = ["2", "2", "false", "false", "true", "2"] := by decide +kernel
+
 /-- The zero value `var r Ring[T]` (never `Init`ialised; no capacity was requested, so it
 is outside the property) is NOT an empty ring of capacity 0: `head = tail = 0` makes
 `IsEmpty()` false and `Len()` 1 while `Cap()` is 0, and `IsFull`, `Push`,
@@ -301,6 +350,23 @@ theorem c10_init_fresh {σ β : Type} (getV : σ → List β) (setV : σ → Lis
     (m.store getV i o' true).load setV i = some o' ∧ (m.store getV i o' true).WF ∧
     ∀ j bj oj, j ≠ i → (m.store getV i o' true).objs[j]? = some (bj, oj) → bj ≠ m.heap.length :=
   store_alloc_fresh getV setV m hwf i o' bi oi hi hgs
+
+/-- `c10_objects_independent`: objects created by separate `New` calls (`MS.ofNew`: object
+`k` owns buffer `k`) have pairwise distinct buffers inside the heap, and EVERY operation on
+one of them — in place or allocating (Init, Recap, an expanding PushWithExpand) — keeps
+that so and leaves what every other object reads unchanged.  By induction over any
+interleaving of operations on 2, 3, 4 … rings that are never copied, each ring therefore
+evolves exactly as if it were alone (`c10_ring_refines`, `c10_ring_large_refines`,
+`c10_sync_refines` apply to each).  A package-level buffer pool that hands one ring's
+LIVE buffer to another ring breaks precisely this (seeded C10-H). -/
+theorem c10_objects_independent {σ β : Type} (getV : σ → List β) (setV : σ → List β → σ) :
+    (∀ rs : List σ, (MS.ofNew getV rs).WF ∧ (MS.ofNew getV rs).Distinct) ∧
+    ∀ (m : MS σ β), m.WF → m.Distinct → ∀ (i : Nat) (o' : σ) (alloc : Bool) (bi : Nat) (oi : σ),
+      m.objs[i]? = some (bi, oi) →
+      (m.store getV i o' alloc).WF ∧ (m.store getV i o' alloc).Distinct ∧
+      ∀ j, j ≠ i → (m.store getV i o' alloc).load setV j = m.load setV j :=
+  ⟨fun rs => ofNew_wf_distinct getV rs,
+   fun m hwf hd i o' alloc bi oi hi => store_independent getV setV m hwf hd i o' alloc bi oi hi⟩
 
 /-- Non-vacuity: `b := a; a.Init(4); a.Push(8); b.Pop()` on SyncRings — `b` still pops its
 own oldest element; without the re-allocation in `Init` it would see `a`'s write. -/
